@@ -1589,6 +1589,7 @@ func cmdC19Script(seed uint64, n int, dir string) {
 	c19VariadicMethod(st)
 	c19MethodParams(st, r, 40)
 	c19Reentrancy(st, r, 1+n/2000) // c19reent.go
+	c19Rebind(st, r, 60)           // c19rebind.go
 	st.Extra["hazards"] = c19Hazards()
 	st.write(dir + "/C19_script_stats.json")
 }
